@@ -122,6 +122,40 @@ theorem bearer_all_tokens (pre post : List SetOp) (t : Bytes) (hf : t.all isFiel
     simp only [Option.map_some, Option.some.injEq] at hw
     simp [hw]
 
+/-- over HTTP/1.1: every token a field value can carry (not empty, not ending in SP/HTAB — see
+`bearer_trailing_ows_excluded`) -/
+theorem bearer_all_tokens_h1 (pre post : List SetOp) (t : Bytes) (hf : t.all isFieldByte = true) (hne : t ≠ [])
+    (hl : ∀ z ∈ t.getLast?, isOws z = false)
+    (hpost : ∀ x ∈ post, x.isClient = true) (urlUser : Option (Bytes × Bytes)) :
+    recoveredBearer false (pre ++ .reqBearer t :: post) urlUser = some (some t) := by
+  have hs := (setter_request_level_sent pre post (.reqBearer t) rfl hpost urlUser).1
+  have hw := bearer_wire_exact t hf hne hl
+  unfold wireBearer at hw
+  unfold recoveredBearer arrives
+  rw [hs]
+  simp only [applyOp]
+  cases ht : transport false (bearer t) with
+  | none => rw [ht] at hw; cases hw
+  | some v =>
+    rw [ht] at hw
+    simp only [Option.map_some, Option.some.injEq] at hw
+    simp [hw]
+
+/-- a token with a control byte (CR, LF, NUL …) handed to the setter that counts makes the call
+FAIL: nothing is sent — not the client-level credential either -/
+theorem bearer_setter_unsendable_refused (h2 : Bool) (pre post : List SetOp) (t : Bytes)
+    (hf : t.all isFieldByte = false) (hpost : ∀ x ∈ post, x.isClient = true) (urlUser : Option (Bytes × Bytes)) :
+    arrives h2 (pre ++ .reqBearer t :: post) urlUser = none := by
+  have hs := (setter_request_level_sent pre post (.reqBearer t) rfl hpost urlUser).1
+  have hw := bearer_unsendable_refused h2 t hf
+  unfold wireBearer at hw
+  unfold arrives
+  rw [hs]
+  simp only [applyOp]
+  cases ht : transport h2 (bearer t) with
+  | none => rfl
+  | some v => rw [ht] at hw; cases hw
+
 /-- nothing configured, no user information: no `Authorization` field at all -/
 theorem nothing_configured_nothing_sent (h2 : Bool) : arrives h2 [] none = some none := rfl
 
